@@ -3,9 +3,13 @@ package lib
 import (
 	"bufio"
 	"bytes"
+	"encoding/hex"
+	"encoding/json"
 	"fmt"
 	"log/slog"
-	"reflect"
+	"os"
+	"os/exec"
+	"strconv"
 	"strings"
 	"sync"
 
@@ -62,11 +66,12 @@ type baseline struct {
 	frame    []byte
 	typ      int
 	text     string
-	readable interface{}
-	errText  string
+	fields   string
+	panicked string
 }
 
-func decodeAlone(frame []byte, level slog.Level) (b baseline, panicked string) {
+// decodeHere decodes the frame with a fresh handler in THIS process.
+func decodeHere(frame []byte, level slog.Level) (b baseline, panicked string) {
 	defer func() {
 		if r := recover(); r != nil {
 			panicked = fmt.Sprint(r)
@@ -77,14 +82,83 @@ func decodeAlone(frame []byte, level slog.Level) (b baseline, panicked string) {
 	b.frame = frame
 	b.typ = m.MessageType
 	b.text = stripTimeLines(m.String())
-	b.readable = m.Readable
-	if isMSMType(m.MessageType) {
-		// the time error text (illegal timestamp) follows the time history too
-		b.errText = ""
-	} else {
-		b.errText = m.ErrorMessage
-	}
+	b.fields = fieldsOf(m.Readable)
 	return
+}
+
+// fieldsOf renders the exported fields of the decoded message.
+func fieldsOf(readable interface{}) string {
+	j, err := json.Marshal(readable)
+	if err != nil {
+		return fmt.Sprintf("%T %+v", readable, readable)
+	}
+	return fmt.Sprintf("%T %s", readable, j)
+}
+
+type decodeReply struct {
+	Type     int    `json:"type"`
+	Text     string `json:"text"`
+	Fields   string `json:"fields"`
+	Panicked string `json:"panicked"`
+}
+
+// DecodeOneMain is the body of the subprocess that decodes exactly one frame in
+// a fresh process (env VSIM_DECODE_ONE=<hex>, VSIM_DECODE_LEVEL=<n>).
+func DecodeOneMain() bool {
+	hx := os.Getenv("VSIM_DECODE_ONE")
+	if hx == "" {
+		return false
+	}
+	frame, err := hex.DecodeString(hx)
+	if err != nil {
+		os.Exit(2)
+	}
+	lv, _ := strconv.Atoi(os.Getenv("VSIM_DECODE_LEVEL"))
+	b, pan := decodeHere(frame, slog.Level(lv))
+	out, _ := json.Marshal(decodeReply{Type: b.typ, Text: b.text, Fields: b.fields, Panicked: pan})
+	fmt.Printf("\nVSIMDEC:%s\n", out)
+	return true
+}
+
+var baseMu sync.Mutex
+var baseCache = map[string]baseline{}
+var baseSpawns int
+
+// decodeAlone returns the decode of the frame alone, first, by a fresh handler
+// in a FRESH PROCESS: the ground truth that no hidden state of this process
+// (package-level caches, reused buffers) can have touched.  Results are cached:
+// they are a pure function of (frame, level).
+func decodeAlone(frame []byte, level slog.Level) (b baseline, panicked string) {
+	key := fmt.Sprintf("%d|%x", level, frame)
+	baseMu.Lock()
+	if c, ok := baseCache[key]; ok {
+		baseMu.Unlock()
+		return c, c.panicked
+	}
+	baseMu.Unlock()
+	cmd := exec.Command(os.Args[0], "-test.run", "^TestVsim$", "-test.count", "1")
+	cmd.Env = append(os.Environ(), "VSIM_DECODE_ONE="+hex.EncodeToString(frame), "VSIM_DECODE_LEVEL="+strconv.Itoa(int(level)))
+	out, err := cmd.Output()
+	var rep decodeReply
+	ok := false
+	for _, line := range strings.Split(string(out), "\n") {
+		if strings.HasPrefix(line, "VSIMDEC:") {
+			ok = json.Unmarshal([]byte(strings.TrimPrefix(line, "VSIMDEC:")), &rep) == nil
+		}
+	}
+	if !ok {
+		// infrastructure trouble, not a verdict
+		panic(fmt.Sprintf("vsim: fresh-process decode failed: %v: %s", err, clip(string(out), 400)))
+	}
+	b = baseline{frame: frame, typ: rep.Type, text: rep.Text, fields: rep.Fields, panicked: rep.Panicked}
+	baseMu.Lock()
+	if len(baseCache) > 20000 {
+		baseCache = map[string]baseline{}
+	}
+	baseCache[key] = b
+	baseSpawns++
+	baseMu.Unlock()
+	return b, rep.Panicked
 }
 
 func isMSMType(t int) bool {
@@ -135,7 +209,7 @@ func runC15(c *hx.Ctx) *hx.Outcome {
 	for i, f := range pool {
 		b, pan := decodeAlone(f, level)
 		if pan != "" {
-			o.Fail("C15/panic", "decoding %s alone panicked: %s", hexShort(f), pan)
+			o.Fail("C15/panic", "decoding %s alone in a fresh process panicked: %s", hexShort(f), pan)
 			return o
 		}
 		bases[i] = b
@@ -167,8 +241,8 @@ func runC15(c *hx.Ctx) *hx.Outcome {
 				fail("C15/repeat-differs", "%s: display %d of the same message differs from the first", who, r+1)
 			}
 		}
-		if !reflect.DeepEqual(m.Readable, b.readable) {
-			fail("C15/fields-differ", "%s: decoded fields of frame %d (type %d) differ from its decode alone", who, fi, b.typ)
+		if got := fieldsOf(m.Readable); got != b.fields {
+			fail("C15/fields-differ", "%s: decoded fields of frame %d (type %d) differ from its decode alone in a fresh process:\n--- alone\n%s\n--- here\n%s", who, fi, b.typ, clip(b.fields, 500), clip(got, 500))
 		}
 		if !bytes.Equal(m.RawData, orig[fi]) {
 			fail("C15/rawdata-modified", "%s: raw bytes of frame %d changed", who, fi)
